@@ -1,5 +1,6 @@
 import IceProofs.UdpMuxSim
 import IceProofs.UniMuxSim
+import IceProofs.UniMuxConc
 /-!
 # C12 — UDP mux delivers each datagram to the right agent and to no other
 
@@ -239,7 +240,7 @@ All theorems quantify over ALL sequences `ops : List UOp` (operations of the emb
 STUN class / transaction id / with, without or with a malformed XOR-MAPPED-ADDRESS, `GetConnForURL`,
 `GetXORMappedAddr` calls with any deadline, passage of time) and every cache TTL. -/
 
-open IceModel.UniMux IceProofs.UniMux
+open IceModel.UniMux IceProofs.UniMux IceProofs.UniMuxConc
 open IceSpec.C12Uni (UState Verdict answerOf)
 
 /-- model state of the universal mux after `ops` -/
@@ -437,5 +438,104 @@ example : (IceModel.UniMux.step (uafter 1000 [.getConnForURL uA [] false, .xorSt
     = { main := .base (.delivered 0) } := by decide
 example : (IceModel.UniMux.step (uafter 1000 [.xorStart srvS 500]) (.inbound srvSmapped .stunNoUser (xOwn 7) 1)).2.fx.learned
     = some (srvS, 7) := by decide
+
+/-! ## one-step theorems of the layer, for ALL states of the model -/
+
+/-- after Close a call neither blocks nor sends: it returns the write error, or an address still cached -/
+theorem C12_uni_closed_call_returns (m : UMux) (srv : Addr) (d : Nat) (hc : m.base.closed = true) :
+    (IceModel.UniMux.xorStart m srv d).2.main = .started m.nwaiters false ∧
+    ∃ res, ((IceModel.UniMux.xorStart m srv d).1.waiter m.nwaiters).res = some res ∧ (res = .writeErr ∨ ∃ v, res = .ok v) := by
+  rw [xorStart_eq]
+  simp only []
+  split
+  · next v _ => exact ⟨rfl, .ok v, by simp [upd], Or.inr ⟨_, rfl⟩⟩
+  · have h2 : (withEntry (cached m (canonAddr srv)).1 (canonAddr srv)).base.closed = true := by
+      rw [withEntry_base, cached_base]; exact hc
+    rw [if_pos h2]
+    exact ⟨rfl, _, by simp [upd], Or.inl rfl⟩
+
+example : (uafter 1000 [.xorStart srvS 500, .inbound srvS .stunNoUser (xOwn 7) 1, .base .closeMux]).base.closed = true
+    ∧ ((IceModel.UniMux.xorStart (uafter 1000 [.xorStart srvS 500, .inbound srvS .stunNoUser (xOwn 7) 1, .base .closeMux]) srvS 5).1.waiter 1).res
+        = some (.ok 7)
+    ∧ ((IceModel.UniMux.xorStart (uafter 1000 [.xorStart srvS 500, .inbound srvS .stunNoUser (xOwn 7) 1, .base .closeMux]) x4 5).1.waiter 1).res
+        = some .writeErr := by decide
+
+/-- the timer: a tick releases exactly the blocked calls whose deadline has passed, with the timeout error -/
+theorem C12_uni_timer_exact (m : UMux) (dt i : Nat) (hi : i < m.nwaiters) (hb : (m.waiter i).res = none) :
+    ((m.waiter i).deadlineAt ≤ m.now + dt →
+        ((IceModel.UniMux.tick m dt).1.waiter i).res = some .timeout ∧ (i, WRes.timeout) ∈ (IceModel.UniMux.tick m dt).2.fx.woke) ∧
+    (m.now + dt < (m.waiter i).deadlineAt →
+        ((IceModel.UniMux.tick m dt).1.waiter i).res = none ∧ ∀ x, (i, x) ∉ (IceModel.UniMux.tick m dt).2.fx.woke) := by
+  constructor
+  · intro h
+    simp [IceModel.UniMux.tick, hi, hb, h]
+  · intro h
+    have h' : ¬ (m.waiter i).deadlineAt ≤ m.now + dt := by omega
+    simp [IceModel.UniMux.tick, hi, hb, h']
+    intro x j _ _ h3 hj; subst hj; exact absurd h3 h'
+
+example : 0 < (uafter 1000 [.xorStart srvS 500]).nwaiters ∧ ((uafter 1000 [.xorStart srvS 500]).waiter 0).res = none
+    ∧ ((uafter 1000 [.xorStart srvS 500]).waiter 0).deadlineAt ≤ (uafter 1000 [.xorStart srvS 500]).now + 500
+    ∧ (uafter 1000 [.xorStart srvS 500]).now + 499 < ((uafter 1000 [.xorStart srvS 500]).waiter 0).deadlineAt := by decide
+
+/-- Close of the mux does NOT release the calls blocked in GetXORMappedAddr (they run to their deadline):
+the step closes the embedded mux and leaves the calls, the table and the clock alone -/
+theorem C12_uni_close_leaves_waiters (m : UMux) :
+    (IceModel.UniMux.step m (.base .closeMux)).1.waiter = m.waiter ∧
+    (IceModel.UniMux.step m (.base .closeMux)).1.nwaiters = m.nwaiters ∧
+    (IceModel.UniMux.step m (.base .closeMux)).1.xmap = m.xmap ∧
+    (IceModel.UniMux.step m (.base .closeMux)).1.now = m.now ∧
+    (IceModel.UniMux.step m (.base .closeMux)).1.base.closed = true ∧
+    (IceModel.UniMux.step m (.base .closeMux)).2.fx.woke = [] := by
+  refine ⟨rfl, rfl, rfl, rfl, ?_, rfl⟩
+  show (closeMux m.base).closed = true
+  unfold closeMux
+  split
+  · assumption
+  · rfl
+
+/-- a call is blocked across Close -/
+example : ((IceModel.UniMux.step (uafter 1000 [.xorStart srvS 500]) (.base .closeMux)).1.waiter 0).res = none
+    ∧ 0 < (IceModel.UniMux.step (uafter 1000 [.xorStart srvS 500]) (.base .closeMux)).1.nwaiters := by decide
+
+/-- a call that returns an address returns the one the table holds for ITS server after the step; that entry
+was written by a response in this very step, or it is not expired -/
+theorem C12_uni_waiter_answer_fresh (m : UMux) (op : UOp) (w v : Nat)
+    (hw : (w, WRes.ok v) ∈ (IceModel.UniMux.step m op).2.fx.woke) :
+    ∃ e, (IceModel.UniMux.step m op).1.xmap ((IceModel.UniMux.step m op).1.waiter w).srv = some e ∧ e.addr = some v ∧
+      ((IceModel.UniMux.step m op).2.fx.learned = some (((IceModel.UniMux.step m op).1.waiter w).srv, v) ∨ (IceModel.UniMux.step m op).1.now ≤ e.expiresAt) := by
+  have hin : ∀ src k x pid, (w, WRes.ok v) ∈ (IceModel.UniMux.inbound m src k x pid).2.fx.woke →
+      ∃ e, (IceModel.UniMux.inbound m src k x pid).1.xmap ((IceModel.UniMux.inbound m src k x pid).1.waiter w).srv = some e ∧ e.addr = some v ∧
+        ((IceModel.UniMux.inbound m src k x pid).2.fx.learned = some (((IceModel.UniMux.inbound m src k x pid).1.waiter w).srv, v) ∨
+          (IceModel.UniMux.inbound m src k x pid).1.now ≤ e.expiresAt) := by
+    intro src k x pid h
+    rw [inbound_fx] at h
+    rw [inbound_fx, inbound_xmap, inbound_waiter]
+    by_cases hc : m.base.closed = true
+    · rw [if_pos hc] at h; cases h
+    · rw [if_neg hc] at h
+      simp only [if_neg hc]
+      obtain ⟨e, h1, h2, h3⟩ := tap_woke_fresh m src k x w v h
+      exact ⟨e, h1, h2, Or.inl h3⟩
+  cases op with
+  | base bop =>
+    cases bop with
+    | inbound src k pid => exact hin src k XView.plain pid hw
+    | _ => cases hw
+  | inbound src k x pid => exact hin src k x pid hw
+  | getConnForURL u url v6 => cases hw
+  | xorStart srv d =>
+    obtain ⟨e, h1, h2, h3⟩ := xorStart_woke_fresh m srv d w v hw
+    exact ⟨e, h1, h2, Or.inr h3⟩
+  | tick dt =>
+    exfalso
+    change (w, WRes.ok v) ∈ (IceModel.UniMux.tick m dt).2.fx.woke at hw
+    simp [IceModel.UniMux.tick] at hw
+
+/-- released by a response; served from the table -/
+example : (0, WRes.ok 7) ∈ (IceModel.UniMux.step (uafter 1000 [.xorStart srvS 500]) (.inbound srvSmapped .stunNoUser (xOwn 7) 1)).2.fx.woke := by
+  decide
+example : (1, WRes.ok 7) ∈ (IceModel.UniMux.step (uafter 1000 [.xorStart srvS 500, .inbound srvSmapped .stunNoUser (xOwn 7) 1])
+    (.xorStart srvS 0)).2.fx.woke := by decide
 
 end IceProps.C12
